@@ -163,6 +163,7 @@ type TxWorld struct {
 	Txs     map[bitcoin.Hash32]*wire.MsgTx
 	n       int
 	FetchDelay func()
+	NoFetchTx  bool // the external tx service knows nothing (GetTx must be answered from the node's own store)
 }
 
 func NewTxWorld() *TxWorld {
@@ -247,6 +248,9 @@ func (w *TxWorld) GetOutputs(ctx context.Context, ops []wire.OutPoint) ([]bitcoi
 
 // GetTx implements spynode.TxFetcher.
 func (w *TxWorld) GetTx(ctx context.Context, txid bitcoin.Hash32) (*wire.MsgTx, error) {
+	if w.NoFetchTx {
+		return nil, fmt.Errorf("external tx service: not found")
+	}
 	if tx, ok := w.Txs[txid]; ok {
 		return tx, nil
 	}
